@@ -17,19 +17,15 @@ Fixpoint str_eqb (a b : str) : bool :=
 Fixpoint assoc_str {A} (k : str) (l : list (str * A)) : option A :=
   match l with [] => None | (k', v) :: r => if str_eqb k k' then Some v else assoc_str k r end.
 
-(* int(two chars, 16): Python's int() also accepts a sign, surrounding whitespace and '_' between digits;
-   for exactly two characters that means: two hex digits, or sign + hex digit, or space + hex digit / hex digit + space *)
+(* int(two chars, 16) after the check that every character is one of 0-9 a-f A-F *)
 Definition hexval (c : Z) : option Z :=
   if (48 <=? c) && (c <=? 57) then Some (c - 48)
   else if (97 <=? c) && (c <=? 102) then Some (c - 87)
   else if (65 <=? c) && (c <=? 70) then Some (c - 55) else None.
-Definition is_py_space (c : Z) : bool := memZ c [32; 9; 10; 11; 12; 13; 28; 29; 30; 31; 133; 160; 5760; 8192; 8193; 8194; 8195; 8196; 8197; 8198; 8199; 8200; 8201; 8202; 8232; 8233; 8239; 8287; 12288].
 Definition int16_2 (a b : Z) : res Z :=
   match hexval a, hexval b with
   | Some x, Some y => Ok (16 * x + y)
-  | None, Some y => if a =? 43 then Ok y else if a =? 45 then Ok (- y) else if is_py_space a then Ok y else Err ValueError
-  | Some x, None => if is_py_space b then Ok x else Err ValueError
-  | None, None => Err ValueError
+  | _, _ => Err ValueError
   end.
 
 (* alpha: None = opaque-by-default marker is not used here; alpha_float=True gives units of 1/10000,
